@@ -15,7 +15,8 @@ def run(ctx):
     q = ctx.quick
     rec = ctx.path("rec.ndjson")
     if ctx.replay:
-        raise lib.ToolError("re-run the check: command vectors are regenerated from the seed")
+        ctx.regenerate()
+        q = ctx.quick
     lib.harness(["c05-drive", "--seed", ctx.seed, "--thorough", 0 if q else 1], stdout=rec, timeout=1800)
     recs = lib.read_ndjson(rec)
     verdicts, _ = lib.judge_sharded(ctx, "vt/EncoderJudge", None, recs, "enc", nshards=lib.NCPU, timeout=3000)
